@@ -28,58 +28,29 @@ def frameOne (isGrouped : Nat → Nat → Bool) : Nat → Bytes → Res Frame
     let vendor := if flags ≥ 128 then rd ((bs.drop 8).take 4) else 0
     let payload := (bs.take length).drop hl
     if isGrouped code vendor then
-      match frames isGrouped fuel payload with
-      | .ok kids => .ok (.group code flags length vendor kids)
-      | .err e => .err e
-      | .panic p => .panic p
+      (frames isGrouped fuel payload).mapR (fun kids => Frame.group code flags length vendor kids)
     else .ok (.leaf code flags length vendor payload)
 /-- all AVPs of a container -/
 def frames (isGrouped : Nat → Nat → Bool) : Nat → Bytes → Res (List Frame)
   | 0, bs => if bs.isEmpty then .ok [] else .err "fuel"
   | fuel+1, bs =>
     if bs.isEmpty then .ok [] else
-    match frameOne isGrouped fuel bs with
-    | .ok f =>
-      let length := rd ((bs.drop 5).take 3)
-      (match frames isGrouped fuel (bs.drop (roundUp4 length)) with
-       | .ok r => .ok (f :: r)
-       | .err e => .err e
-       | .panic p => .panic p)
-    | .err e => .err e
-    | .panic p => .panic p
+    (frameOne isGrouped fuel bs).bindR (fun f =>
+      (frames isGrouped fuel (bs.drop (roundUp4 (rd ((bs.drop 5).take 3))))).mapR (fun r => f :: r))
 end
 
 mutual
 /-- the typed value of a frame: decode exactly the payload bytes with the dictionary's type -/
 def typed (ty : Nat → Nat → Nat) : Frame → Res AVP
-  | .leaf c f l v p =>
-    (match decodeLeaf (ty c v) p with
-     | .ok d => .ok (.mk c f l v d)
-     | .err e => .err e
-     | .panic q => .panic q)
-  | .group c f l v kids =>
-    (match typedL ty kids with
-     | .ok as => .ok (.mk c f l v (.group as))
-     | .err e => .err e
-     | .panic q => .panic q)
+  | .leaf c f l v p => (decodeLeaf (ty c v) p).mapR (fun d => AVP.mk c f l v d)
+  | .group c f l v kids => (typedL ty kids).mapR (fun as => AVP.mk c f l v (.group as))
 def typedL (ty : Nat → Nat → Nat) : List Frame → Res (List AVP)
   | [] => .ok []
-  | f :: r =>
-    match typed ty f with
-    | .ok a =>
-      (match typedL ty r with
-       | .ok as => .ok (a :: as)
-       | .err e => .err e
-       | .panic q => .panic q)
-    | .err e => .err e
-    | .panic q => .panic q
+  | f :: r => (typed ty f).bindR (fun a => (typedL ty r).mapR (fun as => a :: as))
 end
 
 /-- the reference decoder: frame by Length only, then type each payload -/
 def decodeByFrames (ty : Nat → Nat → Nat) (fuel : Nat) (bs : Bytes) : Res (List AVP) :=
-  match frames (fun c v => ty c v = T.grouped) fuel bs with
-  | .ok fs => typedL ty fs
-  | .err e => .err e
-  | .panic p => .panic p
+  (frames (fun c v => ty c v = T.grouped) fuel bs).bindR (typedL ty)
 
 end DV.Spec
